@@ -230,6 +230,13 @@ func (c *DefaultCrawler) Run(ctx context.Context, startingPeers []*peer.AddrInfo
 		}
 		peerAddrs.addPeerAddrsNoLock(ai.ID, extendAddrs)
 
+		if _, ok := peersSeen[ai.ID]; ok {
+			// Starting peer listed more than once (e.g. a bootstrap peer that was
+			// also found by the previous crawl): keep its addresses, but queue
+			// and query it only once.
+			continue
+		}
+
 		toDial = append(toDial, ai)
 		peersSeen[ai.ID] = struct{}{}
 	}
